@@ -26,8 +26,8 @@ Proof. intros H1 H2. cbn. split; assumption. Qed.
 Lemma wsp_seek p l (Q : unit -> lstream -> Prop) : 48 <= ls_pos l -> Q tt (mkLs (ls_data l) (log_of_phys p)) -> wsp (w_seek p) l Q.
 Proof.
   intros H1 H2. cbn [w_seek wop_ wsp ls_step]. split; [exact H1|].
-  destruct (ls_phys_size l <? p); [exact I|].
-  destruct (PAYLOAD_SZ <=? p mod PAGE_SZ); [exact I|]. exact H2.
+  destruct (ls_phys_size l <? p); [exact H1|].
+  destruct (PAYLOAD_SZ <=? p mod PAGE_SZ); [exact H1|]. exact H2.
 Qed.
 
 Lemma wsp_align l (Q : unit -> lstream -> Prop) : 48 <= ls_pos l -> Q tt (ls_write l (zeros ((4 - ls_pos l mod 4) mod 4))) -> wsp w_align l Q.
@@ -39,8 +39,9 @@ Proof. intros H1 H2. cbn. split; assumption. Qed.
 Lemma wsp_flush l (Q : unit -> lstream -> Prop) : 48 <= ls_pos l -> Q tt l -> wsp w_flush l Q.
 Proof. intros H1 H2. cbn. split; assumption. Qed.
 
-Lemma wsp_lift A (r : res A) l (Q : A -> lstream -> Prop) : (forall a, r = Ok a -> Q a l) -> wsp (wlift r) l Q.
-Proof. intros H. destruct r; cbn; auto. Qed.
+Lemma wsp_lift A (r : res A) l (Q : A -> lstream -> Prop) :
+  48 <= ls_pos l -> (forall a, r = Ok a -> Q a l) -> wsp (wlift r) l Q.
+Proof. intros Hl H. destruct r; cbn; auto. Qed.
 
 (** * Programs that only move forward, ending at or behind where they started *)
 
@@ -63,10 +64,10 @@ Lemma wmono_ret A (a : A) : wmono (wret a) (eq a).
 Proof. intros l Q Hl HQ. cbn. apply HQ; [lia|reflexivity]. Qed.
 
 Lemma wmono_fail A k (F : A -> Prop) : wmono (wfail k) F.
-Proof. intros l Q Hl HQ. exact I. Qed.
+Proof. intros l Q Hl HQ. exact Hl. Qed.
 
 Lemma wmono_lift A (r : res A) : wmono (wlift r) (fun a => r = Ok a).
-Proof. intros l Q Hl HQ. apply wsp_lift. intros a E. apply HQ; [lia|exact E]. Qed.
+Proof. intros l Q Hl HQ. apply wsp_lift; [exact Hl|]. intros a E. apply HQ; [lia|exact E]. Qed.
 
 Lemma wmono_relabel A e (p : wprog A) F : wmono p F -> wmono (wrelabel e p) F.
 Proof. intros Hp l Q Hl HQ. apply wsp_relabel. apply Hp; assumption. Qed.
